@@ -354,6 +354,9 @@ pub struct VarFont {
     /// 'cvt ' table (FWORD values)
     pub cvt: Option<Vec<i16>>,
     pub cvar: Option<Cvar>,
+    /// vertical metrics: vhea + vmtx (same numbers as hhea / hmtx) and a VVAR table (the font's HVAR data under the VVAR
+    /// header, or a store without regions when the font has no HVAR)
+    pub vertical: bool,
 }
 
 // ------------------------------------------------------------------------------------------------ reference evaluation
@@ -1238,6 +1241,32 @@ pub fn encode_hvar(h: &Hvar, axis_count: usize) -> Vec<u8> {
     w.done()
 }
 
+/// VVAR: the HVAR layout with a fourth mapping offset (vOrgMapping, absent here) in the header; without HVAR data an
+/// ItemVariationStore that has no regions and no data.
+pub fn encode_vvar(h: Option<&Hvar>, axis_count: usize) -> Vec<u8> {
+    match h {
+        Some(h) => {
+            let hv = encode_hvar(h, axis_count);
+            let mut w = W::new();
+            w.u16(1).u16(0);
+            for k in 0..4 {
+                let o = u32::from_be_bytes([hv[4 + 4 * k], hv[5 + 4 * k], hv[6 + 4 * k], hv[7 + 4 * k]]);
+                w.u32(if o == 0 { 0 } else { o + 4 });
+            }
+            w.u32(0);
+            w.bytes(&hv[20..]);
+            w.done()
+        }
+        None => {
+            let mut w = W::new();
+            w.u16(1).u16(0).u32(24).u32(0).u32(0).u32(0).u32(0);
+            w.u16(1).u32(8).u16(0); // ItemVariationStore: format, regionListOffset, dataCount
+            w.u16(axis_count as u16).u16(0); // region list: axisCount, regionCount
+            w.done()
+        }
+    }
+}
+
 pub fn encode_mvar(m: &Mvar, axis_count: usize) -> Vec<u8> {
     assert!(m.record_size >= 8);
     let mut recs = m.records.clone();
@@ -1454,6 +1483,11 @@ pub fn build_tables(font: &VarFont) -> Vec<(u32, Vec<u8>)> {
     }
     if let Some(m) = &font.mvar {
         t.push((tag(b"MVAR"), encode_mvar(m, font.axes.len())));
+    }
+    if font.vertical {
+        t.push((tag(b"vhea"), { let mut v = tables::hhea(nhm); v[1] = 1; v[2] = 0x10; v }));
+        t.push((tag(b"vmtx"), tables::hmtx(&metrics, &extra)));
+        t.push((tag(b"VVAR"), encode_vvar(font.hvar.as_ref(), font.axes.len())));
     }
     if let Some(c) = &font.cvt {
         let mut w = W::new();
